@@ -941,8 +941,10 @@ def _narrowing_calls(low, res):
     for q, f in low.funcs.items():
         by_name.setdefault(f.name, []).append(f)
     for q, fn in pyxfront.iter_funcs(low.tree):
-        def tn(n_):
-            return res(low.ctype(q, n_))
+        ptypes = {pn: pt for pn, pt, _ in getattr(low.funcs.get(q), "params", [])}
+
+        def tn(n_, q=q, ptypes=ptypes):
+            return res(low.ctype(q, n_) or ptypes.get(n_, ""))
         for c in ast.walk(fn):
             if not isinstance(c, ast.Call):
                 continue
